@@ -74,6 +74,8 @@ theorem EdwardsConditionalSelect_eq (a0 a1 a2 a3 b0 b1 b2 b3 c : Nat) :
     EdwardsConditionalSelect_sh a0 a1 a2 a3 b0 b1 b2 b3 c = if c = 0 then [a0, a1, a2, a3] else [b0, b1, b2, b3] := by
   simp only [EdwardsConditionalSelect_sh, FIR.sel]; split <;> rfl
 
+theorem add_comm' (a b : Nat) : Fp.add a b = Fp.add b a := by unfold Fp.add; rw [Nat.add_comm]
+
 /-- the affine Niels form (y+x, y−x, 2dxy) of an affine point -/
 def aniels (x y : Nat) : List Nat := [Fp.add y x, Fp.sub y x, Fp.mul (Fp.mul x y) Fp.d2]
 
@@ -105,6 +107,9 @@ theorem SubCompletedAffineNiels_eq (c0 c1 c2 c3 n0 n1 n2 : Nat) :
 theorem ANielsSetEdwards_eq (Q : Ext) :
     ANielsSetEdwards_sh Q.X Q.Y Q.Z Q.T = aniels (Fp.mul Q.X (Fp.inv Q.Z)) (Fp.mul Q.Y (Fp.inv Q.Z)) := by
   simp only [ANielsSetEdwards_sh, aniels, const_d2]
+  all_goals first
+    | with_reducible rfl
+    | (rw [add_comm' (Fp.mul Q.X (Fp.inv Q.Z))])
 
 /-- **setAffineNiels**: identity + affine point, in extended coordinates -/
 theorem setAffineNiels_eq (x y : Nat) :
